@@ -448,6 +448,24 @@ def run_abtest(ctx, lab, application):
                 continue
             variants = [[*combos[i], w, i == 0, i == 0] for i, w in enumerate(weights)]
             check_abtest(ctx, application, directory, variants, span, 'int-exhaustive')
+    # asymmetric families: a few equal heavy variants plus several light ones (where quota rules diverge)
+    index = 0
+    for heavy in (7, 8, 9):
+        for nheavy in (2, 3):
+            for lights in ((1,), (1, 1), (1, 1, 1), (1, 0.26), (0.08,), (1, 0.26, 1), (0.51, 0.13, 0.87), (1, 1, 1, 1)):
+                if nheavy + len(lights) > 6:
+                    continue
+                for order in range(3):
+                    index += 1
+                    if not ctx.mine(index):
+                        continue
+                    weights = [heavy] * nheavy + list(lights)
+                    if order == 1:
+                        weights = list(lights) + [heavy] * nheavy
+                    elif order == 2:
+                        weights = [w for pair in itertools.zip_longest(lights, [heavy] * nheavy) for w in pair if w is not None]
+                    variants = [[*combos[i], w, i == 0, i == 0] for i, w in enumerate(weights)]
+                    check_abtest(ctx, application, directory, variants, ctx.pick(160, 600), 'heavy-light')
     # seeded random families
     total = ctx.pick(240, 2400)
     for case in range(total):
